@@ -32,7 +32,7 @@ func runC29(c *simkit.Ctx) {
 		for _, nd := range net.Nodes {
 			c.Must(net.StartNode(nd), "start vbft server")
 		}
-		seen := map[uint32]string{}
+		seen := map[string]string{}
 		o.Inv = func(net *world.VbftNet, step int) { checkParticipants(c, net, seen) }
 		st := runVbft(c, net, o)
 		c.Logf("end: steps=%d maxHeight=%d rounds-checked=%d", st.Steps, st.MaxHeight, len(seen))
